@@ -186,6 +186,37 @@ fn list_case(rec: &mut Recorder, rt: &tokio::runtime::Runtime, initiated: bool, 
     rec.case(case, imp, oracle, initiated && (structural(n) || structural(d)));
 }
 
+/// Prometheus exposition: must not depend on router-supplied strings at all (labels are ids), and every
+/// sample line must have the shape `name{label="value",…} number` with quote-free label values.
+fn metrics_case(rec: &mut Recorder, n: &[u8], d: &[u8], extra: &[Vec<u8>]) {
+    let text = |n: &[u8], d: &[u8], ex: &[Vec<u8>]| -> Result<String, String> {
+        std::panic::catch_unwind(std::panic::AssertUnwindSafe(|| {
+            Pages::new("/routers/", "192.0.2.7".parse().unwrap(), vec![initiation(n, d, ex), peer_up()], vec![]).map(|p| p.metrics_text("bmp-in"))
+        })).unwrap_or(Err("panic".into()))
+    };
+    let well_formed = |t: &str| t.lines().all(|l| {
+        if l.is_empty() || l.starts_with('#') { return true; }
+        let (head, val) = match l.rsplit_once(' ') { Some(x) => x, None => return false };
+        if val.parse::<f64>().is_err() { return false; }
+        match head.split_once('{') {
+            None => head.chars().all(|c| c.is_ascii_alphanumeric() || c == '_' || c == ':'),
+            Some((name, rest)) => name.chars().all(|c| c.is_ascii_alphanumeric() || c == '_' || c == ':') && rest.ends_with('}')
+                && rest[..rest.len() - 1].split(',').all(|kv| match kv.split_once('=') { Some((k, v)) => k.chars().all(|c| c.is_ascii_alphanumeric() || c == '_') && v.len() >= 2 && v.starts_with('"') && v.ends_with('"') && !v[1..v.len() - 1].contains(['"', '\\', '\n']), None => false }),
+        }
+    });
+    let (imp, oracle) = match (text(n, d, extra), text(b"calm", b"calm", &[])) {
+        (Ok(a), Ok(b)) => {
+            let same = a == b;
+            let wf = well_formed(&a);
+            (format!("same={same} wellformed={wf}"), if !same { "fail metrics:depends-on-router-text the Prometheus exposition changes with sysName/sysDescr/extra".to_string() } else if !wf { "fail metrics:malformed-line a sample line is not name{label=\"value\"} number".into() } else { "ok".into() })
+        }
+        (Err(e), _) | (_, Err(e)) => (e.clone(), if e == "panic" { "fail panic:metrics rendering panicked".into() } else { "ok".into() }),
+    };
+    rec.bump("metrics.cases");
+    let structural = |v: &[u8]| v.iter().any(|b| matches!(*b, b'<' | b'>' | b'"' | b'\'' | b'\\' | b'\n'));
+    rec.case(format!("metrics|{}|{}|{}", hex(n), hex(d), join(extra.iter().map(|e| hex(e)), ";")), imp, oracle, structural(n) || structural(d) || extra.iter().any(|e| structural(e)));
+}
+
 // ---------------------------------------------------------------- generator
 
 const HOSTILE: &[&[u8]] = &[b"<script>alert(1)</script>", b"\"><img src=x onerror=alert(1)>", b"'", b"\"", b"<", b">", b"a<b>c", b"</pre></body>", b"x' onmouseover='y", b"&lt;", b"&", b"<!--", b"-->", b"\xff<\xfe>", b"\xc3(\"", b"<svg/onload=alert`1`>", b"line1\nline2<", b"tab\t\"q\""];
@@ -213,6 +244,9 @@ fn main() {
                 let s = |v: &Vec<u8>| v.iter().any(|b| matches!(*b, b'<' | b'>' | b'"' | b'\''));
                 let field = if s(&c.sys_desc) { "sys_desc" } else if c.extra.iter().any(s) { "sys_extra" } else if c.errors.iter().any(|e| s(&e.0)) { "parse_error_msg" } else if c.by_name && c.peer { "base_path" } else { "sys_name" };
                 info_case(&mut rec, &rt, &c, field);
+            } else if let Some(rest) = line.strip_prefix("metrics|") {
+                let p: Vec<&str> = rest.split('|').collect();
+                if p.len() == 3 { metrics_case(&mut rec, &unhex(p[0]), &unhex(p[1]), &(if p[2].is_empty() { vec![] } else { p[2].split(';').map(unhex).collect() })); }
             } else if let Some(rest) = line.strip_prefix("list|") {
                 if rest == "-" { list_case(&mut rec, &rt, false, &[], &[]); }
                 else if let Some((n, d)) = rest.split_once(':') { list_case(&mut rec, &rt, true, &unhex(n), &unhex(d)); }
@@ -234,9 +268,10 @@ fn main() {
     rec.variant("router-info", if any { "as-written" } else { "escaped" });
     list_case(&mut rec, &rt, true, &h, &h);
     list_case(&mut rec, &rt, false, &[], &[]);
+    metrics_case(&mut rec, b"x\"} 1\nfake_metric{a=\"b", &h, &[h.clone()]);
 
     let mut g = Rng::new(args.seed);
-    let ninfo = if args.thorough { 150_000 } else { 6_000 };
+    let ninfo = if args.thorough { 400_000 } else { 30_000 };
     for _ in 0..ninfo {
         let field = *g.pick(&["sys_name", "sys_desc", "sys_extra", "parse_error_msg", "base_path", "none"]);
         let initiated = g.chance(9, 10);
@@ -255,7 +290,15 @@ fn main() {
         if c.by_name && (c.sys_name.windows(7).any(|w| w == b"/flags/") || c.sys_name.windows(10).any(|w| w == b"/prefixes/")) { c.by_name = false; }
         info_case(&mut rec, &rt, &c, field);
     }
-    let nlist = if args.thorough { 50_000 } else { 2_000 };
+    let nmet = if args.thorough { 20_000 } else { 1_000 };
+    for _ in 0..nmet {
+        let (hn, hd) = (g.chance(2, 3), g.chance(2, 3));
+        let n = pick(&mut g, hn, false);
+        let d = pick(&mut g, hd, false);
+        let ex: Vec<Vec<u8>> = (0..g.below(3)).map(|_| pick(&mut g, true, false)).collect();
+        metrics_case(&mut rec, &n, &d, &ex);
+    }
+    let nlist = if args.thorough { 150_000 } else { 10_000 };
     for _ in 0..nlist {
         let initiated = g.chance(9, 10);
         let (hn, hd) = (g.chance(2, 3), g.chance(2, 3));
